@@ -286,6 +286,23 @@ func (cl *Cluster) ResetLog() {
 	cl.mu.Unlock()
 }
 
+// ForgetRequests drops the per-connection request records of every node (and the
+// records of closed connections altogether) in addition to the cluster-wide log, so
+// that long workloads that judge episode by episode do not accumulate every byte
+// ever sent. Connection IDs stay unique because they are never reused.
+func (cl *Cluster) ForgetRequests() {
+	cl.ResetLog()
+	for _, n := range cl.Nodes {
+		n.mu.Lock()
+		for _, bc := range n.conns {
+			bc.mu.Lock()
+			bc.Reqs = nil
+			bc.mu.Unlock()
+		}
+		n.mu.Unlock()
+	}
+}
+
 func (cl *Cluster) NodeByAddr(addr string) *Node {
 	cl.mu.Lock()
 	defer cl.mu.Unlock()
